@@ -230,7 +230,7 @@ static void ffam_block(uint64_t idx, void *ctx)
         int ret = pixman_f_transform_bounds(&A, &box);
         n++;
         int cx[4] = { in.x1, in.x2, in.x2, in.x1 }, cy[4] = { in.y1, in.y1, in.y2, in.y2 };
-        int must_false = 0, unrep = 0, judge = 1;
+        int must_false = 0, unrep = 0, judge = 1, borderline = 0;
         long double cq[4][2], ct[4][2]; int cvalid[4] = { 0, 0, 0, 0 };
         for (int k = 0; k < 4; k++) {
             double v[3] = { cx[k], cy[k], 1 };
@@ -242,7 +242,10 @@ static void ffam_block(uint64_t idx, void *ctx)
                 long double q = e[c].val / e[2].val;
                 cq[k][c] = q;
                 ct[k][c] = 4 * DBL_U * fabsl(q) + e[c].tol / fabsl(e[2].val) + fabsl(q) * e[2].tol / fabsl(e[2].val);
-                if (floorl(q - ct[k][c]) < -32768 || ceill(q + ct[k][c]) > 32767) unrep = 1;
+                /* definitely outside the int16 range: FALSE is demanded; only possibly outside (within the evaluation slack of the
+                 * limit, e.g. a corner mapping exactly to -32768): either answer is accepted */
+                if (floorl(q + ct[k][c]) < -32768 || ceill(q - ct[k][c]) > 32767) unrep = 1;
+                else if (floorl(q - ct[k][c]) < -32768 || ceill(q + ct[k][c]) > 32767) borderline = 1;
             }
         }
         /* containment, judged with the slack of the double evaluation, when every corner fits int16 */
@@ -257,7 +260,7 @@ static void ffam_block(uint64_t idx, void *ctx)
         if (must_false && ret) c11_fail("c11-f-bounds-true-on-zero-w", "returned TRUE although a corner has w == 0; %s", desc);
         else if (judge && !must_false && unrep && ret)
             c11_fail("c11-f-bounds-int16-wraps", "returned TRUE although a transformed corner lies outside the int16 range of pixman_box16_t (the value was truncated to 16 bits); expected FALSE; %s", desc);
-        else if (judge && !must_false && !unrep && !ret) c11_fail("c11-f-bounds-false", "returned FALSE although all corners are finite and fit int16; %s", desc);
+        else if (judge && !must_false && !unrep && !borderline && !ret) c11_fail("c11-f-bounds-false", "returned FALSE although all corners are finite and fit int16; %s", desc);
         nt += unrep || must_false;
         vf_outcome(vf_mix(vf_hash64(&box, sizeof box, 37), (uint64_t)ret));
     }
